@@ -70,14 +70,22 @@ def _bounded(tier):
                 cases=n, violation=bool(fail), witness=fail)
 
 
+def _tag_is_not_a_scratchpad():
+    from contracts.frames import write_sites
+    return [o for o in write_sites() if o['oid'].startswith('frame.write.DT_In.InClass.')]
+
+
 PROP = Prop(
     'C11',
     contracts=[REGISTRY[OPT], REGISTRY[WB], REGISTRY['DocumentTemplate.DT_In.int_param']],
     claims=[OPT + '::ensures.start_lo', OPT + '::ensures.ordered', OPT + '::ensures.end_in_seq', OPT + '::ensures.start_in_seq',
             OPT + '::ensures.size_out', OPT + '::ensures.win_*', OPT + '::raises_only',
             WB + '::cut_*.C11.*', WB + '::call.opt.*', WB + '::cut_*.in_window*', WB + '::cut_*.size_pos*', WB + '::cut_*.nonempty*',
-            'C11.lemma.*', '*int_param::frame.*'],
+            'C11.lemma.*', '*int_param::frame.*', 'frame.write.DT_In.InClass.*'],
     lemmas=LEMMAS,
+    # the window and the neighbouring batches of one rendering are computed from that rendering's own parameters: nothing
+    # of it is parked on the dtml-in tag object, which every rendering of the template shares
+    structural=[_tag_is_not_a_scratchpad],
     native_default=native_c11.native_for,
     bounded=[_bounded],
     assumptions=['batch parameters resolved by int_param are integers (literal digits, or namespace values that are int or numeric str) and orphan >= 0'],
